@@ -91,28 +91,39 @@ def layout(tier: str) -> dict:
     max_ops = 2 if tier == "quick" else 3
     enum_blocks = -(-ENUM_SIZE[max_ops] // ENUM_BLOCK)
     small_blocks = -(-n_small_trees() // SMALL_BLOCK)
-    mixed = 5000 if tier == "quick" else 80000
-    return {"max_ops": max_ops, "enum_blocks": enum_blocks, "small_blocks": small_blocks, "mixed": mixed}
+    mixed = 7500 if tier == "quick" else 80000
+    # case ids: [0, small_blocks) small-tree blocks; after that every ``stride``-th id is a block
+    # of the string enumeration and the others are random (tree + strings) cases.  quick: the
+    # (cheap) enumeration comes first as a whole; thorough: interleaved, so that a run truncated by
+    # the time budget has advanced every monitor proportionally
+    if tier == "quick":
+        stride = 1
+    else:
+        stride = max(1, mixed // enum_blocks) + 1
+        stride += 1 - stride % 2  # odd: consecutive enumeration blocks land on different shards
+    total = small_blocks + enum_blocks * stride + max(0, mixed - enum_blocks * (stride - 1))
+    return {"max_ops": max_ops, "enum_blocks": enum_blocks, "small_blocks": small_blocks,
+            "mixed": mixed, "stride": stride, "total": total}
 
 
 def plan(tier: str) -> dict:
     lay = layout(tier)
     quick = tier == "quick"
     return {
-        "cases": lay["enum_blocks"] + lay["small_blocks"] + lay["mixed"],
+        "cases": lay["total"],
         "shards": 16,
         "budget_s": 55 if quick else 540,
         "floors": {
             # sized so that a run truncated by the time budget on a heavily loaded machine still
             # passes; whether the enumerations were completed is what coverage.exhaustive says
-            "eval_compared": 1500 if quick else 40000,
-            "partial_compared": 600 if quick else 15000,
-            "simplify_compared": 1200 if quick else 30000,
-            "printparse_compared": 5000 if quick else 100000,
-            "serde_compared": 1200 if quick else 30000,
-            "shape_evaluate_compared": 600 if quick else 15000,
-            "grammar_compared": 8000 if quick else 400000,
-            "enum_strings": ENUM_SIZE[lay["max_ops"]] // 2,
+            "eval_compared": 1500 if quick else 15000,
+            "partial_compared": 600 if quick else 6000,
+            "simplify_compared": 1200 if quick else 12000,
+            "printparse_compared": 5000 if quick else 60000,
+            "serde_compared": 1200 if quick else 12000,
+            "shape_evaluate_compared": 600 if quick else 6000,
+            "grammar_compared": 8000 if quick else 100000,
+            "enum_strings": ENUM_SIZE[lay["max_ops"]] // (2 if quick else 10),
             "small_trees": n_small_trees() // 2,
             "op_floordiv(dim,int)": 40,
             "op_floordiv(dim,dim)": 40,
@@ -127,7 +138,7 @@ def plan(tier: str) -> dict:
             "op_min(text)": 8,
             "op_max(text)": 8,
         },
-        "min_nontrivial": 2500 if quick else 150000,
+        "min_nontrivial": 2500 if quick else 40000,
         "params": lay,
     }
 
@@ -1076,43 +1087,44 @@ def run(ctx) -> None:
     names_enum = {"N": "N", "M": "M"}
     my_enum_blocks = 0
     done_enum_blocks = 0
-    for case in range(ctx.shard, eb, ctx.nshards):
-        my_enum_blocks += 1
+    stride = int(lay.get("stride", 1))
+    for k in range(eb):
+        if (sb + k * stride) % ctx.nshards == ctx.shard:
+            my_enum_blocks += 1
     extra_binding_rng = ctx.rng("enum-binding")
     enum_bindings = ENUM_BINDINGS + [{"N": extra_binding_rng.randint(2, 9), "M": extra_binding_rng.randint(2, 9)}]
     small_bindings = SMALL_BINDINGS + [
         {"N": extra_binding_rng.randint(1, 12), "M": extra_binding_rng.randint(1, 12), "K": extra_binding_rng.randint(1, 12)}
     ]
     for case in ctx.case_ids():
-        if case < eb:
+        p = case - sb
+        if case < sb:
+            if small_trees is None:
+                small_trees = list(X.enumerate_small_trees())
+            for idx in range(case * SMALL_BLOCK, min(len(small_trees), (case + 1) * SMALL_BLOCK)):
+                ctx.count("small_trees")
+                judge_tree(ctx, small_trees[idx], small_bindings, idx % 6, idx % 2 == 1, f"small-tree enumeration #{idx}")
+        elif p % stride == 0 and p // stride < eb:
+            block = p // stride
             if enum_iter is None:
                 enum_iter = G.enumerate_strings(max_ops, ENUM_OPERANDS)
-            start = case * ENUM_BLOCK
+            start = block * ENUM_BLOCK
             while enum_pos < start:
                 next(enum_iter, None)
                 enum_pos += 1
-            n = 0
             for _ in range(ENUM_BLOCK):
                 text = next(enum_iter, None)
                 if text is None:
                     break
                 enum_pos += 1
-                n += 1
                 ctx.count("enum_strings")
                 judge_string(ctx, text, text, names_enum, enum_bindings, f"enumeration <= {max_ops} operators",
                              extra_sel=enum_pos, extras=(enum_pos % 4 == 0))
-            if case == eb - 1:
+            if block == eb - 1:
                 # the last block must end exactly at the announced size of the space
                 if enum_pos != ENUM_SIZE[max_ops] or next(enum_iter, None) is not None:
                     raise AssertionError(f"enumeration size {enum_pos} != announced {ENUM_SIZE[max_ops]}")
             done_enum_blocks += 1
-        elif case < eb + sb:
-            if small_trees is None:
-                small_trees = list(X.enumerate_small_trees())
-            k = case - eb
-            for idx in range(k * SMALL_BLOCK, min(len(small_trees), (k + 1) * SMALL_BLOCK)):
-                ctx.count("small_trees")
-                judge_tree(ctx, small_trees[idx], small_bindings, idx % 6, idx % 2 == 1, f"small-tree enumeration #{idx}")
         else:
             rng = ctx.rng(case)
             tree_case(ctx, rng, case)
